@@ -116,7 +116,20 @@ func scheduleProjects(c *core.Ctx, n, years int) []*gen.Project {
 			return []int{e + 1 + r.Intn(100)}
 		}
 		p.Fert, p.Irr, p.Till = nil, nil, nil
-		for _, d := range append(append(pre(), mk(1+r.Intn(6), true, false)...), post()...) {
+		fdates := append(append(pre(), mk(1+r.Intn(6), true, false)...), post()...)
+		if i%5 == 2 {
+			// a fertilisation dated ON the start date (it shares its date with the residue pseudo-event of slot 0 and is
+			// moved on; not judged itself, but every later event is): no event on the two days it may be moved over
+			var fd []int
+			for _, d := range fdates {
+				if d != b+1 && d != b+2 {
+					fd = append(fd, d)
+				}
+			}
+			fdates = append(fd, b)
+			sort.Ints(fdates)
+		}
+		for _, d := range fdates {
 			p.Fert = append(p.Fert, gen.FertEv{Date: d, Kg: 5 + r.Intn(250), Type: gen.Fertilisers[r.Intn(len(gen.Fertilisers))]})
 		}
 		idates := append(append(pre(), mk(1+r.Intn(5), false, false)...), post()...)
